@@ -44,6 +44,7 @@ type nodeLeaser struct {
 	host  string
 	url   string
 	ticks atomic.Int64 // iterations of the node's lease-monitor loop (it asks for the cluster ID at the top of each)
+	dead  atomic.Bool  // the process this leaser belonged to has died (`crash`): it reaches the lease service no more
 }
 
 func (l *nodeLeaser) Close() error         { return nil }
@@ -52,6 +53,9 @@ func (l *nodeLeaser) Hostname() string     { return l.host }
 func (l *nodeLeaser) AdvertiseURL() string { return l.url }
 
 func (l *nodeLeaser) Acquire(ctx context.Context) (litefs.Lease, error) {
+	if l.dead.Load() {
+		return nil, errNetDown
+	}
 	s := l.svc
 	s.mu.Lock()
 	defer s.mu.Unlock()
@@ -80,6 +84,9 @@ func (l *nodeLeaser) AcquireExisting(ctx context.Context, leaseID string) (litef
 }
 
 func (l *nodeLeaser) PrimaryInfo(ctx context.Context) (litefs.PrimaryInfo, error) {
+	if l.dead.Load() {
+		return litefs.PrimaryInfo{}, errNetDown
+	}
 	s := l.svc
 	s.mu.Lock()
 	defer s.mu.Unlock()
@@ -390,7 +397,10 @@ func (m *clusterImpl) settled() (bool, string) {
 	}
 	p := m.nodes[holder]
 	if !p.up || p.eng.store == nil || !p.eng.store.IsPrimary() {
-		return false, "primary-not-ready"
+		m.svc.mu.Lock()
+		ev := strings.Join(m.svc.log[max(0, len(m.svc.log)-6):], ";")
+		m.svc.mu.Unlock()
+		return false, fmt.Sprintf("primary-not-ready holder=%d up=%v events=%s", holder, p.up, ev)
 	}
 	// databases the primary has at TXID >= 1 (a database at the zero position has nothing to send)
 	ppm := p.eng.store.PosMap()
@@ -503,6 +513,7 @@ func (m *clusterImpl) Do(line string) string {
 			n.srv = nil
 		}
 		n.client.block(true)
+		n.leaser.dead.Store(true)
 		m.svc.mu.Lock()
 		if m.svc.holder == n.leaser.idx {
 			m.svc.holder = -1 // the lease of a dead process runs out
